@@ -539,3 +539,342 @@ Section NonInterference.
       (seg_payloads_shape _ _ _ _ _ _ HF Ep1 Ep2). reflexivity.
   Qed.
 End NonInterference.
+
+(* ---- BEC2 framing: AES auth blocks ---------------------------------------------- *)
+Section Bec2Seg.
+  Variable enc mac : bytes -> option bytes -> bytes -> result bytes.
+  Variable sha256 : bytes -> bytes.
+
+  Lemma pack_auth_blocks_seg l k :
+    pack_auth_blocks enc sha256 l k = rmap flatten (seg_auth_blocks enc sha256 l k).
+  Proof.
+    induction l as [|a l IH]; [reflexivity|].
+    cbn [pack_auth_blocks seg_auth_blocks]. unfold seg_ab.
+    destruct (ab_pack enc sha256 a k) as [raw|]; cbn [bind rmap]; [|reflexivity].
+    destruct (to_bytes 1 (ab_tag a)) as [tg|]; cbn [bind rmap]; [|reflexivity].
+    destruct (to_bytes 1 (blen raw)) as [ln|]; cbn [bind rmap]; [|reflexivity].
+    rewrite IH. destruct (seg_auth_blocks enc sha256 l k) as [r|]; cbn [bind rmap]; [|reflexivity].
+    rewrite flatten_app. cbn [flatten flat_map seg_bytes].
+    destruct (ab_wrapped a); cbn [seg_bytes]; rewrite app_nil_r, <- !app_assoc; reflexivity.
+  Qed.
+
+  Theorem bec2_to_binary_seg l cs k :
+    bec2_to_binary enc mac sha256 l cs k = rmap flatten (seg_bec2_to_binary enc mac sha256 l cs k).
+  Proof.
+    unfold bec2_to_binary, seg_bec2_to_binary. rewrite pack_auth_blocks_seg.
+    destruct (seg_auth_blocks enc sha256 l k) as [h|]; cbn [rmap bind]; [|reflexivity].
+    change (flatten (Public BEC2_FILE_SIG :: h)) with (BEC2_FILE_SIG ++ flatten h).
+    rewrite to_binary_seg.
+    destruct (seg_to_binary enc mac cs (blen (BEC2_FILE_SIG ++ flatten h)) k) as [b|]; cbn [rmap bind]; [|reflexivity].
+    change (Public BEC2_FILE_SIG :: h) with ([Public BEC2_FILE_SIG] ++ h).
+    rewrite <- app_assoc, !flatten_app. cbn [flatten flat_map seg_bytes]. rewrite app_nil_r, <- app_assoc. reflexivity.
+  Qed.
+
+  (* a wrapped auth block is the cipher's output on a container frame *)
+  Lemma wrap_is_enc wk pt b : wrap (enc0 enc) wk pt = Ok b ->
+    exists f, frame pt = Ok f /\ enc wk None f = Ok b.
+  Proof.
+    unfold wrap. intro H. bind_inv H as f Ef. exists f. split; [reflexivity|exact H].
+  Qed.
+
+  Lemma ab_pack_is_enc a k b : ab_wrapped a = true -> ab_pack enc sha256 a k = Ok b ->
+    exists wk pt f, frame pt = Ok f /\ enc wk None f = Ok b.
+  Proof.
+    intros Hw H. destruct a as [wkey ck|code v|t raw]; [| |discriminate].
+    - cbn [ab_pack] in H. unfold ck_wrap in H.
+      destruct (ck_active ck) as [[c p]|].
+      + destruct (wrap_is_enc _ _ _ H) as [f [Hf He]]. eauto.
+      + destruct (wrap_is_enc _ _ _ H) as [f [Hf He]]. eauto.
+    - cbn [ab_pack] in H. bind_inv H as vb Ev. unfold csc_wrap in H.
+      destruct (wrap_is_enc _ _ _ H) as [f [Hf He]]. eauto.
+  Qed.
+
+  Definition bseg_ok (l : list ablock) (cs : list comp) (k : bytes) (s : seg) : Prop :=
+    match s with
+    | WrapOut b => exists a, In a l /\ ab_wrapped a = true /\ ab_pack enc sha256 a k = Ok b
+    | _ => seg_ok enc mac cs k s
+    end.
+
+  Lemma seg_auth_blocks_ok all cs l : forall k h, incl l all ->
+    seg_auth_blocks enc sha256 l k = Ok h -> Forall (bseg_ok all cs k) h.
+  Proof.
+    induction l as [|a l IH]; intros k h Hinc H.
+    - inversion H. repeat constructor.
+    - cbn [seg_auth_blocks] in H. bind_inv H as s Es. bind_inv H as r Er. inversion H; subst h. clear H.
+      apply Forall_app. split; [|apply IH; [intros x Hx; apply Hinc; right; exact Hx|exact Er]].
+      unfold seg_ab in Es. bind_inv Es as raw Eraw. bind_inv Es as tg Etg. bind_inv Es as ln Eln.
+      inversion Es; subst s. constructor; [exact I|]. constructor; [|constructor].
+      destruct (ab_wrapped a) eqn:Ew; [|exact I].
+      exists a. split; [apply Hinc; left; reflexivity|]. split; [exact Ew|exact Eraw].
+  Qed.
+
+  Theorem seg_bec2_ok l cs k segs :
+    seg_bec2_to_binary enc mac sha256 l cs k = Ok segs -> Forall (bseg_ok l cs k) segs.
+  Proof.
+    unfold seg_bec2_to_binary. intro H. bind_inv H as h Eh. bind_inv H as b Eb. inversion H; subst segs.
+    constructor; [exact I|]. apply Forall_app. split.
+    - apply (seg_auth_blocks_ok l cs l k h (incl_refl _) Eh).
+    - pose proof (seg_to_binary_ok enc mac cs _ k b Eb) as Hb.
+      eapply Forall_impl; [|exact Hb]. intros s Hs. destruct s; try exact Hs. destruct Hs.
+  Qed.
+End Bec2Seg.
+
+Lemma frame_blen pt f : frame pt = Ok f ->
+  blen f mod 16 = 0 /\ blen f = 4 + Z.to_N (padding_len (Z.of_N (blen pt))) + blen pt.
+Proof.
+  intro H.
+  assert (Hn : blen pt <= 253).
+  { destruct (N.le_gt_cases (blen pt) 253) as [Hle|Hgt]; [exact Hle|].
+    rewrite frame_overflow in H by exact Hgt. discriminate. }
+  unfold frame in H. bind_inv H as crc Ec. bind_inv H as lenb El. inversion H; subst f. clear H.
+  apply to_bytes_be in Ec as [-> _]. apply to_bytes_be in El as [-> _].
+  destruct (padding_len_spec _ Hn) as [_ Hmod]. cbv zeta in Hmod.
+  set (pl := Z.to_N (padding_len (Z.of_N (blen pt)))) in *.
+  assert (L : blen ([marker_B] ++ be 1 (blen pt + blen (be 2 (crc_of pt))) ++ zeros (N.to_nat pl) ++ pt ++ be 2 (crc_of pt))
+              = 4 + pl + blen pt).
+  { rewrite !blen_app, blen_zeros, !blen_be, N2Nat.id.
+    change (blen [marker_B]) with 1. change (N.of_nat 1) with 1. change (N.of_nat 2) with 2. lia. }
+  split; [|exact L].
+  change (marker_B :: ?x) with ([marker_B] ++ x).
+  rewrite L. replace (4 + pl + blen pt) with (2 + pl + blen pt + 2) by lia. exact Hmod.
+Qed.
+
+Section Bec2NonInterference.
+  Variable enc1 mac1 enc2 mac2 : bytes -> option bytes -> bytes -> result bytes.
+  Variable sha1 sha2 : bytes -> bytes.
+  Hypothesis mac_len1 : forall k iv d m, d <> [] -> mac1 k iv d = Ok m -> blen m = 16.
+  Hypothesis mac_len2 : forall k iv d m, d <> [] -> mac2 k iv d = Ok m -> blen m = 16.
+  Hypothesis enc_len1 : forall k d c, blen d mod 16 = 0 -> enc1 k None d = Ok c -> blen c = blen d.
+  Hypothesis enc_len2 : forall k d c, blen d mod 16 = 0 -> enc2 k None d = Ok c -> blen c = blen d.
+
+  Lemma wrap_blen enc (Hel : forall k d c, blen d mod 16 = 0 -> enc k None d = Ok c -> blen c = blen d)
+    wk pt ct : wrap (enc0 enc) wk pt = Ok ct ->
+    blen ct = 4 + Z.to_N (padding_len (Z.of_N (blen pt))) + blen pt.
+  Proof.
+    unfold wrap. intro H. bind_inv H as f Ef. destruct (frame_blen _ _ Ef) as [Hm Hl].
+    unfold enc0 in H. rewrite (Hel _ _ _ Hm H). exact Hl.
+  Qed.
+
+  Lemma wrap_blen_eq wk1 wk2 pt1 pt2 c1 c2 : blen pt1 = blen pt2 ->
+    wrap (enc0 enc1) wk1 pt1 = Ok c1 -> wrap (enc0 enc2) wk2 pt2 = Ok c2 -> blen c1 = blen c2.
+  Proof.
+    intros Hl H1 H2. rewrite (wrap_blen enc1 enc_len1 _ _ _ H1), (wrap_blen enc2 enc_len2 _ _ _ H2), Hl.
+    reflexivity.
+  Qed.
+
+  Lemma slice_assign_blen pt1 pt2 p n c1 c2 : blen pt1 = blen pt2 -> blen c1 = blen c2 ->
+    blen (slice_assign pt1 p n c1) = blen (slice_assign pt2 p n c2).
+  Proof.
+    intros Hp Hc. unfold slice_assign. rewrite !blen_app, !takeN_blen, !dropN_blen, Hp, Hc. reflexivity.
+  Qed.
+
+  Lemma ab_pack_shape a1 a2 k1 k2 r1 r2 : ab_pub_eq a1 a2 -> blen k1 = blen k2 ->
+    ab_pack enc1 sha1 a1 k1 = Ok r1 -> ab_pack enc2 sha2 a2 k2 = Ok r2 ->
+    blen r1 = blen r2 /\ ab_tag a1 = ab_tag a2 /\ ab_wrapped a1 = ab_wrapped a2 /\
+    (ab_wrapped a1 = false -> r1 = r2).
+  Proof.
+    intros Hpe Hk H1 H2.
+    destruct a1 as [wk1 ck1|code1 v1|t1 raw1], a2 as [wk2 ck2|code2 v2|t2 raw2]; cbn [ab_pub_eq] in Hpe;
+      try contradiction.
+    - cbn [ab_pack ab_tag ab_wrapped] in *. split; [|repeat split; discriminate].
+      assert (Hpt : blen (CUSTOMER_KEY_PLACEHOLDER ++ k1) = blen (CUSTOMER_KEY_PLACEHOLDER ++ k2)).
+      { rewrite !blen_app, Hk. reflexivity. }
+      unfold ck_wrap in H1, H2.
+      destruct ck1 as [[c1 p1]|], ck2 as [[c2 p2]|]; cbn [ck_pub_eq] in Hpe; try contradiction.
+      + destruct Hpe as [-> Hc].
+        destruct c1 as [|x1 c1], c2 as [|x2 c2]; try (rewrite ?blen_nil, ?blen_cons in Hc; lia);
+          cbn [ck_active] in H1, H2.
+        * exact (wrap_blen_eq _ _ _ _ _ _ Hpt H1 H2).
+        * refine (wrap_blen_eq _ _ _ _ _ _ _ H1 H2). apply slice_assign_blen; assumption.
+      + cbn [ck_active] in H1, H2. exact (wrap_blen_eq _ _ _ _ _ _ Hpt H1 H2).
+    - cbn [ab_pack ab_tag ab_wrapped] in *. split; [|repeat split; discriminate].
+      bind_inv H1 as vb1 E1. bind_inv H2 as vb2 E2. subst v2. rewrite E1 in E2. inversion E2; subst vb2.
+      unfold csc_wrap in H1, H2. refine (wrap_blen_eq _ _ _ _ _ _ _ H1 H2).
+      rewrite !blen_app, Hk. reflexivity.
+    - destruct Hpe as [-> ->]. cbn [ab_pack ab_tag ab_wrapped] in *.
+      inversion H1; inversion H2; subst. repeat split; reflexivity.
+  Qed.
+
+  Lemma seg_auth_blocks_shape l1 : forall l2 k1 k2 h1 h2,
+    Forall2 ab_pub_eq l1 l2 -> blen k1 = blen k2 ->
+    seg_auth_blocks enc1 sha1 l1 k1 = Ok h1 -> seg_auth_blocks enc2 sha2 l2 k2 = Ok h2 ->
+    shape h1 = shape h2.
+  Proof.
+    induction l1 as [|a1 l1 IH]; intros l2 k1 k2 h1 h2 HF Hk H1 H2.
+    - inversion HF; subst. inversion H1; inversion H2; subst. reflexivity.
+    - inversion HF as [|? a2 ? l2' Hpe HF']; subst.
+      cbn [seg_auth_blocks] in H1, H2.
+      bind_inv H1 as s1 Es1. bind_inv H1 as t1 Et1. inversion H1; subst h1. clear H1.
+      bind_inv H2 as s2 Es2. bind_inv H2 as t2 Et2. inversion H2; subst h2. clear H2.
+      rewrite !shape_app, (IH _ _ _ _ _ HF' Hk Et1 Et2). f_equal.
+      unfold seg_ab in Es1, Es2.
+      bind_inv Es1 as raw1 Er1. bind_inv Es2 as raw2 Er2.
+      destruct (ab_pack_shape _ _ _ _ _ _ Hpe Hk Er1 Er2) as [Hl [Ht [Hw Hraw]]].
+      bind_inv Es1 as tg1 Etg1. bind_inv Es1 as ln1 Eln1. inversion Es1; subst s1. clear Es1.
+      rewrite <- Ht, Etg1 in Es2. cbn [bind] in Es2. rewrite <- Hl, Eln1 in Es2. cbn [bind] in Es2.
+      inversion Es2; subst s2. clear Es2.
+      cbn [shape map]. rewrite <- Hw. destruct (ab_wrapped a1); cbn [shape_of].
+      + rewrite Hl. reflexivity.
+      + rewrite (Hraw eq_refl). reflexivity.
+  Qed.
+
+  Theorem seg_bec2_shape l1 l2 cs1 cs2 k1 k2 s1 s2 :
+    Forall2 ab_pub_eq l1 l2 -> blen k1 = blen k2 ->
+    Forall2 pub_eq cs1 cs2 -> Forall nonempty_blob cs1 -> Forall nonempty_blob cs2 ->
+    seg_bec2_to_binary enc1 mac1 sha1 l1 cs1 k1 = Ok s1 ->
+    seg_bec2_to_binary enc2 mac2 sha2 l2 cs2 k2 = Ok s2 ->
+    shape s1 = shape s2.
+  Proof.
+    intros HL Hk HF Hn1 Hn2 H1 H2. unfold seg_bec2_to_binary in H1, H2.
+    bind_inv H1 as h1 Eh1. bind_inv H1 as b1 Eb1. inversion H1; subst s1. clear H1.
+    bind_inv H2 as h2 Eh2. bind_inv H2 as b2 Eb2. inversion H2; subst s2. clear H2.
+    pose proof (seg_auth_blocks_shape _ _ _ _ _ _ HL Hk Eh1 Eh2) as Hh.
+    assert (Hs : shape (Public BEC2_FILE_SIG :: h1) = shape (Public BEC2_FILE_SIG :: h2)).
+    { cbn [shape map]. fold (shape h1) (shape h2). rewrite Hh. reflexivity. }
+    rewrite (shape_blen _ _ Hs) in Eb1.
+    change (Public BEC2_FILE_SIG :: h1 ++ b1) with ((Public BEC2_FILE_SIG :: h1) ++ b1).
+    change (Public BEC2_FILE_SIG :: h2 ++ b2) with ((Public BEC2_FILE_SIG :: h2) ++ b2).
+    rewrite !shape_app, Hs.
+    rewrite (seg_to_binary_shape enc1 mac1 enc2 mac2 mac_len1 mac_len2 enc_len1 enc_len2
+               _ _ _ _ _ _ _ HF Hn1 Hn2 Eb1 Eb2). reflexivity.
+  Qed.
+End Bec2NonInterference.
+
+(* ---- fail closed ------------------------------------------------------------------ *)
+Section FailClosed.
+  Variable enc mac : bytes -> option bytes -> bytes -> result bytes.
+
+  (* the calls the writer makes for one component under one key *)
+  Definition calls_ok (k : bytes) (c : comp) : Prop :=
+    exists raw pm, raw_data enc c k = Ok raw /\ mac k None raw = Ok pm.
+
+  Lemma ser_dir_calls cs : forall ndx adr k d,
+    ser_dir enc mac cs ndx adr k = Ok d -> Forall (calls_ok k) cs.
+  Proof.
+    induction cs as [|c cs IH]; intros ndx adr k d H; [constructor|].
+    cbn [ser_dir] in H.
+    destruct (ser_entry enc mac c ndx adr k) as [[entry raw]|] eqn:Ee; cbn [bind] in H; [|discriminate].
+    bind_inv H as el Eel. bind_inv H as rest Er.
+    constructor; [|exact (IH _ _ _ _ Er)].
+    unfold ser_entry in Ee. bind_inv Ee as raw' Eraw. bind_inv Ee as pmac Epmac.
+    exists raw', pmac. split; [exact Eraw|exact Epmac].
+  Qed.
+
+  (* Ok only if every cipher call for every component succeeded, in the measuring pass
+     (default key) and in the real pass: any failing call makes to_binary fail *)
+  Theorem to_binary_ok_calls cs off k b :
+    to_binary enc mac cs off k = Ok b ->
+    Forall (fun c => calls_ok DEFAULT_SESSION_KEY c /\ calls_ok k c) cs.
+  Proof.
+    unfold to_binary, dir_to_binary. intro H.
+    bind_inv H as d0 Ed0. bind_inv H as d Ed. bind_inv H as p Ep.
+    bind_inv Ed0 as db0 Edb0. bind_inv Ed as db Edb.
+    pose proof (ser_dir_calls _ _ _ _ _ Edb0) as H0. pose proof (ser_dir_calls _ _ _ _ _ Edb) as H1.
+    rewrite Forall_forall in *. intros c Hc. split; [apply H0, Hc|apply H1, Hc].
+  Qed.
+
+  Theorem to_binary_fail_any cs off k c :
+    In c cs -> ~ (calls_ok DEFAULT_SESSION_KEY c /\ calls_ok k c) ->
+    exists e, to_binary enc mac cs off k = Err e.
+  Proof.
+    intros Hin Hn. destruct (to_binary enc mac cs off k) as [b|e] eqn:E; [|exists e; reflexivity].
+    exfalso. apply Hn. pose proof (to_binary_ok_calls _ _ _ _ E) as H. rewrite Forall_forall in H. apply H, Hin.
+  Qed.
+
+  (* cipher not registered: every method raises the same error *)
+  Theorem to_binary_unregistered e c cs off k :
+    (forall k iv d, enc k iv d = Err e) -> (forall k iv d, mac k iv d = Err e) ->
+    to_binary enc mac (c :: cs) off k = Err e.
+  Proof.
+    intros He Hm. unfold to_binary, dir_to_binary. cbn [ser_dir]. unfold ser_entry, raw_data.
+    destruct (c_enc c); [rewrite He|cbn [bind]; rewrite Hm]; reflexivity.
+  Qed.
+
+  (* encrypt raises, first component encrypted *)
+  Theorem to_binary_enc_fails e c cs off k :
+    c_enc c = true -> (forall k iv d, enc k iv d = Err e) ->
+    to_binary enc mac (c :: cs) off k = Err e.
+  Proof.
+    intros Hc He. unfold to_binary, dir_to_binary. cbn [ser_dir]. unfold ser_entry, raw_data.
+    rewrite Hc, He. reflexivity.
+  Qed.
+
+  (* mac raises *)
+  Theorem to_binary_mac_fails e c cs off k raw :
+    raw_data enc c DEFAULT_SESSION_KEY = Ok raw -> (forall k iv d, mac k iv d = Err e) ->
+    to_binary enc mac (c :: cs) off k = Err e.
+  Proof.
+    intros Hr Hm. unfold to_binary, dir_to_binary. cbn [ser_dir]. unfold ser_entry.
+    rewrite Hr. cbn [bind]. rewrite Hm. reflexivity.
+  Qed.
+
+  (* encrypt raises only under the session key (the measuring pass succeeds):
+     still no output *)
+  Theorem to_binary_enc_fails_late cs off k c :
+    In c cs -> c_enc c = true -> (exists e, enc k None (pad (Bf3.c_blob c)) = Err e) ->
+    exists e', to_binary enc mac cs off k = Err e'.
+  Proof.
+    intros Hin Hc [e He]. apply (to_binary_fail_any cs off k c Hin).
+    intros [_ [raw [pm [Hr _]]]]. unfold raw_data in Hr. rewrite Hc, He in Hr. discriminate.
+  Qed.
+End FailClosed.
+
+(* ---- output trace ------------------------------------------------------------------- *)
+Lemma written_app a b : written (a ++ b) = written a ++ written b.
+Proof. apply flat_map_app. Qed.
+
+Lemma written_hex_lines fuel : forall b, written (map EvWrite (hex_line_list fuel b)) = hex_lines fuel b.
+Proof.
+  induction fuel as [|f IH]; intro b; [reflexivity|].
+  cbn [hex_line_list map written flat_map hex_lines]. fold (written (map EvWrite (hex_line_list f (skipn 40 b)))).
+  rewrite IH, <- app_assoc. reflexivity.
+Qed.
+
+Lemma written_write_events p cm raw : written (write_events p cm raw) = write_bf3_format cm raw.
+Proof.
+  unfold write_events, write_bf3_format. rewrite !written_app, written_hex_lines.
+  destruct p; cbn [written flat_map app]; rewrite ?app_nil_r, <- ?app_assoc; reflexivity.
+Qed.
+
+Lemma call_with_binary_err p cm e : call_with_binary p cm (Err e) = ([], Err e).
+Proof. reflexivity. Qed.
+
+Section TraceProofs.
+  Variable enc mac : bytes -> option bytes -> bytes -> result bytes.
+  Variable sha256 : bytes -> bytes.
+
+  Theorem write_file_io_spec p f k :
+    match write_file enc mac f k with
+    | Err e => write_file_io enc mac p f k = ([], Err e)
+    | Ok t => exists evs, write_file_io enc mac p f k = (evs, Ok tt) /\ written evs = t
+    end.
+  Proof.
+    unfold write_file, write_file_io.
+    destruct (to_binary enc mac (f_comps f) (blen BF3_FILE_SIG) k) as [b|e]; cbn [bind call_with_binary].
+    - eexists. split; [reflexivity|apply written_write_events].
+    - reflexivity.
+  Qed.
+
+  Theorem bec2_write_file_io_spec p l f k :
+    match bec2_write_file enc mac sha256 l f k with
+    | Err e => bec2_write_file_io enc mac sha256 p l f k = ([], Err e)
+    | Ok t => exists evs, bec2_write_file_io enc mac sha256 p l f k = (evs, Ok tt) /\ written evs = t
+    end.
+  Proof.
+    unfold bec2_write_file, bec2_write_file_io.
+    destruct (bec2_to_binary enc mac sha256 l (f_comps f) k) as [b|e]; cbn [bind call_with_binary].
+    - eexists. split; [reflexivity|apply written_write_events].
+    - reflexivity.
+  Qed.
+
+  (* a failing auth-block cipher call also leaves nothing behind *)
+  Theorem bec2_to_binary_fail_header l cs k e :
+    pack_auth_blocks enc sha256 l k = Err e -> bec2_to_binary enc mac sha256 l cs k = Err e.
+  Proof. unfold bec2_to_binary. intros ->. reflexivity. Qed.
+
+  Theorem bec2_to_binary_fail_body l cs k h e :
+    pack_auth_blocks enc sha256 l k = Ok h ->
+    to_binary enc mac cs (blen (BEC2_FILE_SIG ++ h)) k = Err e ->
+    bec2_to_binary enc mac sha256 l cs k = Err e.
+  Proof. unfold bec2_to_binary. intros -> H. cbn [bind]. rewrite H. reflexivity. Qed.
+End TraceProofs.
